@@ -507,6 +507,37 @@ func (m *Model) Pull(s *MSub, max int, resp []RecvMsg, t0, t1 time.Time) *Violat
 					maybeCopy = true
 				}
 			}
+			if e != nil && len(ties) > 0 {
+				// the guess may be the wrong way round: make the candidates interchangeable in
+				// everything that is checked by time or count
+				grp := append([]*ED{e}, ties...)
+				u := *e
+				hi := e.Seen + e.SeenUnc
+				for _, x := range ties {
+					if x.RetLo.Before(u.RetLo) {
+						u.RetLo = x.RetLo
+					}
+					if x.RetHi.After(u.RetHi) {
+						u.RetHi = x.RetHi
+					}
+					if x.LeaseLo.Before(u.LeaseLo) {
+						u.LeaseLo = x.LeaseLo
+					}
+					if x.LeaseHi.After(u.LeaseHi) {
+						u.LeaseHi = x.LeaseHi
+					}
+					if x.Seen < u.Seen {
+						u.Seen = x.Seen
+					}
+					if x.Seen+x.SeenUnc > hi {
+						hi = x.Seen + x.SeenUnc
+					}
+				}
+				for _, x := range grp {
+					x.RetLo, x.RetHi, x.LeaseLo, x.LeaseHi = u.RetLo, u.RetHi, u.LeaseLo, u.LeaseHi
+					x.Seen, x.SeenUnc = u.Seen, hi-u.Seen
+				}
+			}
 			if e != nil && len(ties) > 0 && (maybeCopy || e.Origin != nil) {
 				// the row delivered may really be a dead-letter copy (or the original): the
 				// ordering oracle, which exempts forwarded copies, must exempt the guess too
@@ -646,12 +677,17 @@ func (m *Model) Pull(s *MSub, max int, resp []RecvMsg, t0, t1 time.Time) *Violat
 					// link per delivery and relies on transitivity, which seeks, stale acks after
 					// a seek and unequal retention break (known finding, DESIGN.md section 7)
 					oracle := "overtaken"
+					// (the link is chosen among all same-key deliveries of the subscription,
+					// dead-letter copies included, by creation time)
 					var q *ED
 					for _, x := range s.EDs {
-						if x == e {
-							break
+						if x == e || x.Msg.Key != e.Msg.Key || x.State == stGone || x.CreLo.After(e.CreLo) {
+							continue
 						}
-						if x.Origin == nil && x.Msg.Key == e.Msg.Key && x.Msg.Seq < e.Msg.Seq && x.State != stGone {
+						if x.Origin == nil && x.Msg.Seq >= e.Msg.Seq {
+							continue
+						}
+						if q == nil || x.CreLo.After(q.CreLo) {
 							q = x
 						}
 					}
@@ -828,8 +864,8 @@ func (m *Model) deadLetter(e *ED, t0, t1 time.Time) {
 	}
 	wasMaybe := e.DLMaybe
 	e.State = stDL
+	e.SettledLo = e.settledSince(t0)
 	e.DLMaybe = false
-	e.SettledLo = t0
 	e.ForwardCount++
 	dl := e.Sub.Cfg.DLTopic
 	if dl == nil || !dl.Live {
@@ -970,7 +1006,7 @@ func (m *Model) Ack(named *MSub, ids []string, t0, t1 time.Time) {
 		switch e.State {
 		case stOut:
 			e.State = stAcked
-			e.SettledLo = t0
+			e.SettledLo = e.settledSince(t0)
 			e.BySeek = false
 			if e.DLMaybe {
 				e.DLMaybe = false // settled either way on the source
@@ -1031,6 +1067,17 @@ func (m *Model) NotePrune(at time.Time, minAge time.Duration) {
 	}
 }
 
+// settledSince: the earliest instant since which the delivery may have been completed, when
+// it is settled for certain at t0. If its state was not known exactly (a foreign ack, a
+// possible dead-lettering) it may have been completed, and become prunable, at any time
+// since it was created.
+func (e *ED) settledSince(t0 time.Time) time.Time {
+	if e.Fuzzy || e.DLMaybe {
+		return e.CreLo
+	}
+	return t0
+}
+
 func (m *Model) mayHaveBeenPruned(e *ED, now time.Time) bool {
 	for _, p := range m.pruneRuns {
 		if p.at.After(e.SettledLo) && !p.at.Add(-p.minAge).Before(e.SettledLo.Add(-eps)) {
@@ -1087,9 +1134,9 @@ func (m *Model) fuzzyBySeek(e *ED, t0, t1 time.Time) {
 func (m *Model) settleBySeek(e *ED, t0 time.Time) {
 	e.SnapPruned = false
 	e.State = stAcked
+	e.SettledLo = e.settledSince(t0)
 	e.Fuzzy = false
 	e.DLMaybe = false
-	e.SettledLo = t0
 	e.BySeek = true
 	m.probe("seek_acked")
 }
